@@ -66,5 +66,9 @@ func DefaultParser[T constraint.ParserInput](input T, r Rule) (date Date, err er
 	year, _ := strconv.Atoi(string(parts[1]))
 	month, _ := strconv.Atoi(string(parts[2]))
 	day, _ := strconv.Atoi(string(parts[3]))
+	if d := New(year, Month(month), day); d.Year() != year || d.Month() != Month(month) || d.Day() != day {
+		// not existing day (e.g. 2022-02-30 or month 00), New would normalize it to another date
+		return Date{}, newParseError(funcName, input, nil)
+	}
 	return New(year, Month(month), day), nil
 }
